@@ -452,6 +452,32 @@ def main():
                     if not (first_lo <= s_ < first_lo + dt.timedelta(hours=1)) or not (last_lo < e_ <= last_lo + dt.timedelta(hours=1)):
                         fails.append({"clause": "C06:alap-frame", "key": key, "input": text,
                                       "detail": f"{t.fullId}: reported {s_}..{e_}, first booked slot {first_lo}, last booked slot {last_lo}"})
+        if prop == "C04":
+            # dated-container sub-universe: a container with its own start; children depend on outside tasks, on each other,
+            # on a container; on-start edges. The container's start is a lower bound, every edge is honoured.
+            for k in range(n // 3):
+                e = [rng.choice(["2h", "5h", "13h", "90min"]) for _ in range(4)]
+                gd = START + dt.timedelta(days=rng.choice([0, 1, 3]))
+                onstart = rng.random() < 0.3
+                opt = " { onstart }" if onstart else rng.choice(["", "", " { gapduration 2h }"])
+                text = ('project prj "P" 2025-01-06 +3w { timezone "UTC" }\nresource r "r" {}\nresource q "q" {}\n'
+                        f'task a "a" {{ effort {e[0]} allocate r }}\n'
+                        f'task g "g" {{ start {gd.strftime("%Y-%m-%d")}\n  task x "x" {{ effort {e[1]} allocate q depends a{opt} }}\n'
+                        f'  task y "y" {{ effort {e[2]} allocate q }}\n}}\n'
+                        f'task z "z" {{ effort {e[3]} allocate r depends g }}\n')
+                key = f"C04/dated/{SEED}/{k}"
+                proj = run(text)
+                evals += 1
+                record(key, text)
+                d_ = dates(proj)
+                if all(v[2] for v in d_.values()):
+                    bound = d_["a"][0] if onstart else d_["a"][1] + dt.timedelta(hours=2 if "gapduration" in opt else 0)
+                    if d_["g.x"][0] < bound:
+                        fails.append({"clause": "C04:dated-container-child", "key": key, "input": text, "detail": f"g.x starts {d_['g.x'][0]} before its bound {bound}"})
+                    if d_["g.x"][0] < gd or d_["g.y"][0] < gd:
+                        fails.append({"clause": "C04:container-start-bound", "key": key, "input": text, "detail": f"children start {d_['g.x'][0]}, {d_['g.y'][0]} before the container's start {gd}"})
+                    if d_["z"][0] < d_["g"][1]:
+                        fails.append({"clause": "C04:depends-on-container", "key": key, "input": text, "detail": f"z starts {d_['z'][0]} before g ends {d_['g'][1]}"})
         if prop == "C03":
             # team sub-universe: two members of efficiency 1, whole-slot efforts (a final partial slot is the recorded
             # finding D2), optional task limit restricted to ONE member (a limit shared by the members is finding D17),
